@@ -335,7 +335,10 @@ char* implode_string (array_t * arr, char *del, size_t del_len) {
   if (num == 0)
     return string_copy ("", "implode_string");
 
-  p = new_string (size + (num - 1) * del_len, "implode_string: p");
+  size += (num - 1) * del_len;
+  if (size > (size_t)CONFIG_INT (__MAX_STRING_LENGTH__))
+    error ("*Maximum string length exceeded in implode().");
+  p = new_string (size, "implode_string: p");
   q = p;
   for (i = 0, num = 0; i < arr->size; i++)
     {
